@@ -15,6 +15,14 @@ def signature(name):
     return deco
 
 
+@signature('dup_header_names_shadow')
+def _s13(case, msg):
+    # the driver classifies a header mismatch as S13 only when (a) two supported conditions of the route share a
+    # header name, (b) every decoded condition was sent, (c) the decoded set is smaller than what was sent; any other
+    # failure of the same case is reported first (never masked)
+    return case.get('op') == 'decode' and msg.startswith('S13 C11.headers_preserved')
+
+
 def match(pid, case, msg):
     """the known finding that explains this spec failure, or None"""
     for e in _F.get('findings', []):
